@@ -104,6 +104,7 @@ pub async fn run_suite(suite: &str, seed: u64, cases: usize) -> (String, String)
             "fd" => gen_fd(&mut sim, &mut crng, &mut stats, &name).await,
             "listen" => gen_listen(&mut sim, &mut crng, &mut stats, &name).await,
             "select" => gen_select(&mut sim, &mut crng, &mut stats, &name).await,
+            "loop" => crate::loopsim::gen_loop(&mut sim.trace, &mut crng, &mut stats.counts, &name).await,
             "apply" => gen_apply(&mut sim, &mut crng, &mut stats, &name).await,
             "catchup" => gen_catchup(&mut sim, &mut crng, &mut stats, &name).await,
             other => panic!("unknown suite {other}"),
